@@ -275,6 +275,9 @@ package client
 //@   requires fd != nil && input != nil && fd.tables != nil
 //@   opaque (*Table).Description
 //@   ensures[C18] old((input.TableName == nil ? "" : *input.TableName) in fd.tables) ==> result1 != nil && typeis(result1, "*ddb2types.ResourceInUseException") && content(fd.tables) == old(content(fd.tables))
+//@   ensures[C20] old(fd.nativeInterpreter != nil && fd.langInterpreter != nil) && result1 == nil ==> fd.tables[old(input.TableName == nil ? "" : *input.TableName)].UseNativeInterpreter == old(fd.useNativeInterpreter) &&
+//@                fd.tables[old(input.TableName == nil ? "" : *input.TableName)].NativeInterpreter.filterExpressions == old(fd.nativeInterpreter.filterExpressions) && fd.tables[old(input.TableName == nil ? "" : *input.TableName)].NativeInterpreter.keyExpressions == old(fd.nativeInterpreter.keyExpressions) &&
+//@                fd.tables[old(input.TableName == nil ? "" : *input.TableName)].NativeInterpreter.writeCondExpressions == old(fd.nativeInterpreter.writeCondExpressions) && fd.tables[old(input.TableName == nil ? "" : *input.TableName)].NativeInterpreter.updateExpressions == old(fd.nativeInterpreter.updateExpressions)
 //@   ensures[C18] result1 != nil ==> content(fd.tables) == old(content(fd.tables))
 //@   ensures[C18] result1 == nil ==> !old((input.TableName == nil ? "" : *input.TableName) in fd.tables) && dom(fd.tables) == with(old(dom(fd.tables)), old(input.TableName == nil ? "" : *input.TableName)) &&
 //@                fresh(fd.tables[old(input.TableName == nil ? "" : *input.TableName)]) && fd.tables[old(input.TableName == nil ? "" : *input.TableName)] != nil
@@ -349,3 +352,31 @@ package client
 //@   requires input != nil
 //@   ensures[C01,C05] fresh(result) && result != nil && result.ConditionExpression == old(input.ConditionExpression) && result.ExpressionAttributeNames == old(input.ExpressionAttributeNames) &&
 //@                (old(input.UpdateExpression) != nil ==> result.UpdateExpression == old(*input.UpdateExpression)) && dom(result.Key) == old(dom(input.Key)) && dom(result.ExpressionAttributeValues) == old(dom(input.ExpressionAttributeValues))
+
+// ---- C20: the client's interpreter settings reach every table --------------------------------------------
+// activating the native interpreter sets the flag on the client and on every table of the catalogue; SetInterpreter
+// installs the registry in the client and in every table; CreateTable copies the current settings into the new
+// table (its C20 clause above)
+//@ func (*Client).ActivateNativeInterpreter
+//@   partial
+//@   requires fd != nil && fd.tables != nil && forall n string :: {fd.tables[n]} n in fd.tables ==> fd.tables[n] != nil
+//@   ensures[C20] fd.useNativeInterpreter
+//@   ensures[C20] forall n string :: {fd.tables[n]} n in fd.tables ==> fd.tables[n].UseNativeInterpreter
+//@   ensures[C20] content(fd.tables) == old(content(fd.tables))
+//@   loop 1:
+//@     invariant fd.useNativeInterpreter && content(fd.tables) == old(content(fd.tables))
+//@     invariant forall n string :: {fd.tables[n]} n in visited ==> fd.tables[n].UseNativeInterpreter
+//@ func (*Client).SetInterpreter
+//@   partial
+//@   maypanic
+//@   requires fd != nil && fd.tables != nil && forall n string :: {fd.tables[n]} n in fd.tables ==> fd.tables[n] != nil
+//@   requires typeis(i, "*interpreter.Native") && i.(*interpreter.Native) != nil
+//@   ensures[C20] fd.nativeInterpreter == i.(*interpreter.Native) && content(fd.tables) == old(content(fd.tables))
+//@   ensures[C20] forall n string :: {fd.tables[n]} n in fd.tables ==> fd.tables[n].NativeInterpreter.filterExpressions == i.(*interpreter.Native).filterExpressions &&
+//@                fd.tables[n].NativeInterpreter.keyExpressions == i.(*interpreter.Native).keyExpressions && fd.tables[n].NativeInterpreter.writeCondExpressions == i.(*interpreter.Native).writeCondExpressions &&
+//@                fd.tables[n].NativeInterpreter.updateExpressions == i.(*interpreter.Native).updateExpressions
+//@   loop 1:
+//@     invariant fd.nativeInterpreter == i.(*interpreter.Native) && content(fd.tables) == old(content(fd.tables))
+//@     invariant forall n string :: {fd.tables[n]} n in visited ==> fd.tables[n].NativeInterpreter.filterExpressions == i.(*interpreter.Native).filterExpressions &&
+//@                fd.tables[n].NativeInterpreter.keyExpressions == i.(*interpreter.Native).keyExpressions && fd.tables[n].NativeInterpreter.writeCondExpressions == i.(*interpreter.Native).writeCondExpressions &&
+//@                fd.tables[n].NativeInterpreter.updateExpressions == i.(*interpreter.Native).updateExpressions
